@@ -41,8 +41,8 @@ def plan(tier, seed):
     L = 3 if tier == "quick" else 4
     for i, k in enumerate(KINDS):
         specs.append({"name": f"moves-exh-first{k}", "mode": "exh", "first": i, "L": L, "seed": seed})
-    nsamp = 3000 if tier == "quick" else 30000
-    for j in range(4 if tier == "quick" else 8):
+    nsamp = 3000 if tier == "quick" else 100000
+    for j in range(4 if tier == "quick" else 16):
         specs.append({"name": f"moves-rand{j}", "mode": "rand", "n": nsamp, "Lmax": L + 2, "seed": seed, "j": j})
     specs.append({"name": "calls", "mode": "calls", "seed": seed, "n": 6 if tier == "quick" else 8})
     specs.append({"name": "multipliers", "mode": "mult", "seed": seed})
